@@ -505,8 +505,143 @@ def check_C16(tier, seed):
     return out.finish()
 
 
+
+# ----------------------------------------------------------------------------------------------
+# M-tess: assembly machine (C03 C07 C12 C13 C09)
+# ----------------------------------------------------------------------------------------------
+VTESS_INVS = ["Deterministic", "PrefixSums", "InvListedByLeft", "InvListedByRight", "InvListedByNoOther",
+              "InvNoUnselectedLeft", "InvStoredAtMostOnce", "InvStoredOnce", "InvNeighbourIds", "InvReciprocalInput",
+              "SymIsNonSymMinusTreated", "SymEqualsStored"]
+
+
+def run_mcvtess(name, N, T, K, mode, hasmask=True, walls_fixed=True, collect="indexed", timeout=1800):
+    cfg = os.path.join(OUT, "tlc", "vtess_%s.cfg" % name)
+    write_cfg(cfg, constants=dict(N=N, T=T, K=K, InputMode=mode, CollectMode=collect, HasMask=hasmask, WallsFixed=walls_fixed),
+              invariants=VTESS_INVS, properties=["SharedImmutable", "SlotOwnership"])
+    r = run_tlc("mc/MCVTess.tla", cfg, timeout=timeout, coverage=False)
+    return r
+
+
+def vtess_model(out, tier):
+    """Model-check the assembly machine: all schedules of T workers, all masks, reciprocal and arbitrary inputs."""
+    runs = [("rec3", 3, 2, 1, "reciprocal", True, True), ("arb2", 2, 2, 2, "arbitrary", True, True),
+            ("rec3nomask", 3, 3, 1, "reciprocal", False, True)]
+    if tier == "thorough":
+        runs += [("rec3w", 3, 3, 1, "reciprocal", True, False), ("arb3", 3, 2, 1, "arbitrary", True, True),
+                 ("rec4", 4, 2, 1, "reciprocal", False, True)]
+    cov = out.coverage
+    for (name, N, T, K, mode, hm, wf) in runs:
+        r = run_mcvtess(name, N, T, K, mode, hasmask=hm, walls_fixed=wf)
+        if r.violation:
+            raise ToolError("VTess model violates its own invariant (%s): %s\n%s" % (name, r.violation, r.raw_tail[-2500:]))
+        cov["states"] = cov.get("states", 0) + r.distinct
+        cov["transitions"] = cov.get("transitions", 0) + r.states
+        cov.setdefault("models", {})[name] = dict(N=N, T=T, K=K, inputs=mode, hasmask=hm, states=r.distinct,
+                                                  transitions=r.states, wall=round(r.wall, 1))
+        log("VTess model %s: %d distinct states (%.1fs)" % (name, r.distinct, r.wall))
+
+
+def tess_pipeline(tier, seed, tag, count=None, nmax=None):
+    ensure_dirs()
+    binp = build_harness()
+    res_file = os.path.join(OUT, "%s_tess_result.json" % tag)
+    trace_file = os.path.join(OUT, "%s_tess_trace.ndjson" % tag)
+    count = count or (40 if tier == "quick" else 400)
+    nmax = nmax or (24 if tier == "quick" else 40)
+    t0 = time.time()
+    run_harness(binp, ["tess", "--out", res_file, "--trace", trace_file, "--tier", tier, "--seed", str(seed),
+                       "--count", str(count), "--nmax", str(nmax)])
+    res = json.load(open(res_file))
+    log("tess recorder: %s (%.1fs)" % (res["stats"], time.time() - t0))
+    cfg = os.path.join(OUT, "tlc", "vtesstrace.cfg")
+    write_cfg(cfg, spec="TSpec", invariants=["Consumed"], postcondition="TraceAccepted")
+    r = run_tlc("trace/VTessTrace.tla", cfg, workers=1, dfs=True, env_extra={"VV_TRACE": trace_file},
+                tags=("VERDICT",), timeout=3000, xmx="8g")
+    if r.violation or not r.ok:
+        raise ToolError("VTessTrace could not consume the trace: %s\n%s" % (r.violation or r.error, r.raw_tail[-2000:]))
+    verdicts = [v for _, v in r.cases]
+    log("VTessTrace: %d lines validated in %.1fs" % (len(verdicts), r.wall))
+    return res, verdicts, trace_file
+
+
+def apply_tess(out, res, verdicts, trace_file, prop):
+    tagp = "[%s" % prop
+    lines_ok = 0
+    bad_lines = {}
+    for v in verdicts:
+        mine = [x for x in v["failed"] if prop in x[x.rfind("["):]]
+        if not v["failed"]:
+            lines_ok += 1
+        for x in mine:
+            bad_lines.setdefault(x, []).append(v["line"])
+    if bad_lines:
+        # fetch the offending trace lines for the replay file
+        wanted = {ls[0] for ls in bad_lines.values()}
+        recs = {}
+        with open(trace_file) as f:
+            for k, line in enumerate(f, 1):
+                if k in wanted:
+                    recs[k] = json.loads(line)
+        for x, ls in bad_lines.items():
+            out.violation("VTessTrace rejected %d recorded run(s): %s" % (len(ls), x), {"trace_line": recs.get(ls[0]), "lines": ls[:20]})
+    for f in res["failures"]:
+        if f["prop"] == prop:
+            out.violation("%s [%s] input kind=%s n=%d mask=%s detail=%s" % (f["what"], f["prop"], f["input"]["kind"], len(f["input"]["gens"]),
+                                                                  json.dumps(f["mask"])[:80], json.dumps(f["detail"])[:300]), f)
+    for p in res["panics"]:
+        if prop == "C05":
+            out.violation("panic on a valid general-position input: %s" % p["message"], p)
+    cov = out.coverage
+    cov["traces_validated_against_impl"] = cov.get("traces_validated_against_impl", 0) + lines_ok
+    cov["evaluations"] = cov.get("evaluations", 0) + res["stats"]["lines"]
+    cov["distinct_nontrivial"] = cov.get("distinct_nontrivial", 0) + res["stats"]["lines"]
+    cov.setdefault("samples", [])
+    cov["samples"] += res["samples"][:2]
+    cov["tess_stats"] = res["stats"]
+    cov["trace_lines_rejected_any_property"] = sum(1 for v in verdicts if v["failed"])
+    cov["panics_in_recorder"] = len(res["panics"])
+
+
+TESS_RULE = ("seeded float inputs (uniform, clustered 1e-4..1e-1, near-lattice 1e-9..1e-6, exactly snapping lattices, tiny "
+             "periodic sets with self-neighbours, anisotropic boxes, offsets 1e4; 1D/2D/3D; periodic and reflective) x masks "
+             "(none, all-true, all-false, singles, random densities, halves; all 2^n for n <= 4); one trace line per (input, mask); "
+             "distinct = trace lines, each non-trivial (re-executed by TLC on the recorded plane lists)")
+TESS_ASSUME = [
+    "TLC evaluates VTess/VTessTrace correctly; the Json module deserialises the trace faithfully",
+    "the harness projects the public API state (plane lists, faces, connectivity) without error (tess.rs)",
+    "quantisation unit 2^-26 of the box scale; relational slack 2 units (+1e-6 relative for areas)",
+]
+
+
+def generic_tess_check(prop, tier, seed, rule_extra=""):
+    out = Outcome(prop, tier, seed)
+    vtess_model(out, tier)
+    res, verdicts, trace_file = tess_pipeline(tier, seed, prop)
+    apply_tess(out, res, verdicts, trace_file, prop)
+    out.coverage["rule"] = TESS_RULE + rule_extra
+    out.assumptions = TESS_ASSUME
+    return out
+
+
+def check_C03(tier, seed):
+    return generic_tess_check("C03", tier, seed, "; reciprocity checked by TLC on quantised areas/centroids/normals of both sides "
+                              "and numerically at the 1e-9 threshold in the harness; antisymmetric flux over all cells").finish()
+
+
+def check_C07(tier, seed):
+    return generic_tess_check("C07", tier, seed, "; every masked run compared (bit tokens) with the full run of the same input").finish()
+
+
+def check_C12(tier, seed):
+    return generic_tess_check("C12", tier, seed, "; connectivity, offsets, counts, face_indices, neighbour_ids re-executed for both routes").finish()
+
+
+def check_C13(tier, seed):
+    return generic_tess_check("C13", tier, seed, "; dump tokens of the two routes, integral lists vs stored values").finish()
+
+
 CHECKS = {"C01": check_C01, "C02": check_C02, "C04": check_C04, "C05": check_C05, "C06": check_C06,
-          "C08": check_C08, "C16": check_C16}
+          "C08": check_C08, "C16": check_C16, "C03": check_C03, "C07": check_C07, "C12": check_C12, "C13": check_C13}
 
 
 def run_check(pid, tier, seed):
